@@ -1,6 +1,7 @@
 import TcVerif.Model.Json
 import TcVerif.Model.JsonParse
 import TcVerif.Model.Replica
+import TcVerif.Proofs.JsonUuid
 /-!
 # C14 — What is sent to the server is the documented operation format only  *(partial)*
 
@@ -12,9 +13,11 @@ Theorems:
 * every string — any characters, control characters, quotes, backslashes, astral planes — survives
   print-then-parse, whatever follows it (`C14_string_roundtrip`).
 
+* every 128-bit task id survives print-then-parse (`C14_uuid_roundtrip`).
+
 NOT a theorem (hence *partial*): the whole-document round trip `decodeVersion (printVersion ops) =
-some ops` (uuid and RFC 3339 timestamp printers against their parsers, the fuel of the generic JSON
-parser).  It is checked on every run instead: the Lean judge requires of every document the real
+some ops` — the RFC 3339 timestamp printer against its parser (the civil-date inverse; `omega` did
+not finish on it within 30 minutes) and the fuel of the generic JSON parser.  It is checked on every run instead: the Lean judge requires of every document the real
 code sends that the model's reader decodes it to exactly the operations made and that re-printing
 reproduces it character for character, and the `wire` family makes the real reader and the model's
 reader agree on documents a foreign writer produces (other field orders, white space, escapes,
@@ -154,6 +157,11 @@ theorem C14_string_value_roundtrip (s : String) (rest : List Char) (fuel : Nat) 
   have h := C14_string_roundtrip s.toList rest
   simp only [List.append_assoc, List.cons_append, List.nil_append] at h ⊢
   simp [h]
+
+/-- **every task id survives print-then-parse**: the uuid reader reads back what the uuid printer
+    printed, for every 128-bit value -/
+theorem C14_uuid_roundtrip (u : Nat) (hu : u < 2 ^ 128) : parseUuid (printUuid u) = some u :=
+  parseUuid_printUuid u hu
 
 /-- non-vacuity / sanity: a concrete document with awkward characters round-trips (a test, not the
     theorem that is missing) -/
